@@ -261,6 +261,11 @@ pub fn run_c13(ctx: &Ctx) -> i32 {
     spaces.push(mk(Cfg::Mem, Order::Asc, alphabet(u_names(), &[b"x"], 1, true), empty_init(false)));
     spaces.push(mk(Cfg::Phys, Order::Asc, alphabet(u_names_small(), &[b"x"], 1, false), empty_init(false)));
     spaces.push(mk(ov2.clone(), Order::Asc, alphabet(u_names_small(), &[b"x"], 1, false), empty_init(false)));
+    // names whose byte length minus a small constant falls inside a character
+    let mb = Universe::new("U_multibyte", &["/éé", "/éé/a", "/日a", "/日a/é", "/a😀", "/a😀/b"]);
+    spaces.push(mk(ov2.clone(), Order::Asc, alphabet(mb.clone(), &[b"x"], 1, false), layerings(&[0, 1], &mb.paths[..4].to_vec(), false)));
+    spaces.push(mk(Cfg::Mem, Order::Asc, alphabet(mb.clone(), &[b"x"], 1, true), empty_init(false)));
+    spaces.push(mk(Cfg::alt(Cfg::Mem, "/é"), Order::Asc, alphabet(mb.clone(), &[b"x"], 1, false), empty_init(false)));
     spaces.push(mk(Cfg::alt(Cfg::Mem, "/Z"), Order::Asc, a4.clone(), empty_init(false)));
     let u2 = Universe::new("U2{a,a/a}", &["/a", "/a/a"]);
     spaces.push(mk(ov2.clone(), Order::Asc, alphabet(u2.clone(), &[b"x"], 1, true), layerings(&[0, 1], &u2.paths, true)));
